@@ -122,8 +122,8 @@ class Scenario:
 
 class C18(Prop):
     id = "C18"
-    translators = []
-    proof_targets = ["Master/TimeSync.vo", "Master/TimeSyncProofs.vo"]
+    translators = ["gen_master_tables"]
+    proof_targets = ["Master/TimeSync.vo", "Master/TimeSyncProofs.vo", "Master/TablesAgree.vo"]
     property_file = "Properties/C18.v"
     theorems = []
     modelled = ("modelled by hand: master/tasks/time.rs (TimeSyncTask), the response validation of "
